@@ -9,7 +9,7 @@ FNS = "Rename,Remove,RemoveAll,Mkdir,MkdirAll,MkdirTemp,CreateTemp,Create,OpenFi
 SPEC = dict(
     level="proof",
     harness=dict(pkg_dir="search", run="TestVerifC12$", files=["search/zz_verif_c12_test.go"],
-                 n_quick=14, n_thorough=60),
+                 n_quick=14, n_thorough=40),
     runner=dict(imports=["From ZV Require Import Lib.Base Model.FsOps Model.FinishOps."], case_type="c12case",
                 mismatch_fn="c12_mismatches", shard=300),
     rule="REAL index builds of one repository through index.Builder (working tree's index/builder.go + index/tombstones.go with "
@@ -87,7 +87,7 @@ def run(ctx):
     if not proofs["ok"]:
         broken.append("proof obligations of Props/%s.v do not check: %s" % (pid, (proofs.get("broken_files") or proofs.get("nonstd_axioms") or proofs["log"][-800:])))
     h = spec["harness"]
-    n = ctx.n(h["n_quick"], h["n_thorough"])
+    n = int(os.environ.get("VERIF_C12_N") or ctx.n(h["n_quick"], h["n_thorough"]))
     to = 1500 if ctx.tier == "quick" else 5400
     rep, _sites = instrument(ctx, FILES, "fsi-build")
     hr = vf.go_harness(ctx, h["pkg_dir"], h["run"], h["files"], n, timeout=to, extra_replace=rep, out_name="out-build.jsonl")
